@@ -16,8 +16,15 @@ def conditions(tier):
 
 
 def extra(tier):
-    from . import progs_a
-    return progs_a.run("C08", tier)
+    from .. import enga, runner
+    from . import lapack_probe, progs_a
+
+    res = progs_a.run("C08", tier)
+    # nested differentiation through the LAPACK-backed rules (float64 probe, outside the symbolic engine): the inner
+    # VJP differentiated again, incl. w.r.t. its own cotangent at zero (value-dependent shortcuts on a traced cotangent)
+    enga.init()
+    res = list(res) + [r for r in lapack_probe.run(runner.SEED)]
+    return res
 
 
 BProp("C08", conditions,
